@@ -1,5 +1,6 @@
 import ProductMD.Model.Checksum
 import ProductMD.Generated.ComposePaths
+import ProductMD.Generated.UrlLoc
 /-!
 # Compose directory resolution (property C20)
 
@@ -147,6 +148,160 @@ def World.ofTree (nodes : List ((Bool × List Str) × Bool)) (orders : List ((Bo
 /-- the same world after the paths `gone` (as keys) have been removed from the file system -/
 def World.without (w : World) (gone : List (Bool × List Str)) : World :=
   { w with «exists» := fun p => !gone.contains (key p) && w.exists p }
+
+/-! ## remote locations (http / https / ftp)
+
+`_file_exists(p)` and `open_file_obj(p)` fetch `p` with `_urlopen` when it starts with one of the prefixes read from
+the source (`Gen.urlSchemesExists` / `Gen.urlSchemesOpen`); everything else is the local file system above.  The net is
+abstract: `fetch url i` is the outcome of the `i`-th `_urlopen(url)` (so a server may answer differently each time),
+`parse kind resp` the outcome of `parse_file(resp)` + `deserialize` on the response object handed out.  There is no
+listing over URLs.  Every fetch is logged with "the library closed the response before the operation returned". -/
+
+inductive Fetch where
+  /-- a response object; `resp` identifies it (what it delivers, through which reader branch) -/
+  | ok (resp : Str)
+  /-- `urllib.error.URLError` or a subclass (HTTPError 404, connection refused, unknown host) -/
+  | urlError
+  /-- any other exception of `_urlopen`: socket timeout while reading, `http.client` exceptions (InvalidURL,
+  RemoteDisconnected), `ValueError` (invalid IPv6 URL) -/
+  | other (e : Err)
+deriving DecidableEq, Repr
+
+structure Net where
+  fetch : Str → Nat → Fetch
+  parse : Kind → Str → Except Err Str
+
+structure FetchRec where
+  url : Str
+  closed : Bool
+deriving DecidableEq, Repr
+
+abbrev FLog := List FetchRec
+
+/-- `p.startswith((..))` -/
+def isUrl (schemes : List Str) (p : Str) : Bool := schemes.any (fun s => Str.startsWith p s)
+
+/-- number of earlier fetches of this URL -/
+def seen (log : FLog) (url : Str) : Nat := (log.filter (fun r => r.url == url)).length
+
+/-- classes an `except` clause must name to catch this failure -/
+def fetchBases : Fetch → List String
+  | .ok _ => []
+  | .urlError => ["URLError", "OSError", "Exception", "BaseException"]
+  | .other e => errBases e
+
+/-- the exception class a failed fetch propagates as -/
+def fetchErr : Fetch → Err
+  | .other e => e
+  | _ => .other                                                   -- URLError is an OSError
+
+/-- `_file_exists(p)`: for a URL "the fetch succeeds"; a failure of a class named in the except clause means absent,
+any other exception propagates -/
+def existsU (w : World) (n : Net) (log : FLog) (p : Str) : FLog × Except Err Bool :=
+  if isUrl Gen.urlSchemesExists p then
+    match n.fetch p (seen log p) with
+    | .ok _ => (log ++ [⟨p, true⟩], .ok true)
+    | f =>
+      if (fetchBases f).any (fun c => Gen.urlExistsCatches.contains c) then (log ++ [⟨p, false⟩], .ok false)
+      else (log ++ [⟨p, false⟩], .error (fetchErr f))
+  else (log, .ok (w.exists p))
+
+/-- the legacy scan `for i in os.listdir(compose_path)` -/
+def scanU (w : World) (n : Net) (cp : Str) : FLog → List Str → FLog × Except Err (Option Str)
+  | log, [] => (log, .ok none)
+  | log, i :: rest =>
+    match existsU w n log (pathJoin (pathJoin cp i) Gen.composeScanName) with
+    | (l, .error e) => (l, .error e)
+    | (l, .ok true) => (l, .ok (some i))
+    | (l, .ok false) => scanU w n cp l rest
+
+/-- `Compose.__init__` with remote locations: the fetches made and the resolved `compose_path` (or the exception that
+leaves the constructor) -/
+def resolveU (w : World) (n : Net) (cp : Str) : FLog × Except Err Str :=
+  let path := pathJoin cp Gen.composeSubdir
+  match existsU w n [] (pathJoin path Gen.composeProbe) with
+  | (l, .error e) => (l, .error e)
+  | (l, .ok true) => (l, .ok path)
+  | (l, .ok false) =>
+    if !containsSub Gen.composeUrlMark cp && w.exists cp then       -- `os.path.exists`, never a fetch
+      match w.listdir cp with
+      | none => (l, .error .other)
+      | some ls =>
+        match scanU w n cp l ls with
+        | (l2, .error e) => (l2, .error e)
+        | (l2, .ok (some i)) => (l2, .ok (pathJoin cp i))
+        | (l2, .ok none) => (l2, .ok cp)
+    else (l, .ok cp)
+
+/-- `_find_metadata_file(paths)` -/
+def findU (w : World) (n : Net) (composePath : Str) : FLog → List Str → FLog × Except CErr Str
+  | log, [] => (log, .error (.runtime composePath))
+  | log, i :: rest =>
+    match existsU w n log (pathJoin composePath i) with
+    | (l, .error e) => (l, .error (.other e))
+    | (l, .ok true) => (l, .ok (pathJoin composePath i))
+    | (l, .ok false) => findU w n composePath l rest
+
+/-- `cls().load(path)`: `open_file_obj` fetches a URL once; the response is closed after the body of the `with` returned
+normally and NOT when it raised (no try/finally) -/
+def loadU (w : World) (n : Net) (log : FLog) (k : Kind) (path : Str) : FLog × Except Err Str :=
+  if isUrl Gen.urlSchemesOpen path then
+    match n.fetch path (seen log path) with
+    | .ok resp =>
+      match n.parse k resp with
+      | .ok text => (log ++ [⟨path, true⟩], .ok text)
+      | .error e => (log ++ [⟨path, false⟩], .error e)
+    | f => (log ++ [⟨path, false⟩], .error (fetchErr f))
+  else (log, w.load k path)
+
+structure UState where
+  composePath : Str
+  cache : Kind → Option Obj := fun _ => none
+  loads : List (Kind × Str) := []
+  fetches : FLog := []
+
+/-- one access of `compose.<k>` -/
+def accessU (w : World) (n : Net) (s : UState) (k : Kind) : UState × Except CErr Obj :=
+  match s.cache k with
+  | some o => (s, .ok o)
+  | none =>
+    match findU w n s.composePath s.fetches (candidates k) with
+    | (l, .error e) => ({ s with fetches := l }, .error e)
+    | (l, .ok path) =>
+      match loadU w n l k path with
+      | (l2, .ok text) =>
+        let o : Obj := ⟨s.loads.length, k, path, text⟩
+        if cachedKind k then
+          ({ s with loads := s.loads ++ [(k, path)], fetches := l2, cache := fun k' => if k' = k then some o else s.cache k' }, .ok o)
+        else ({ s with loads := s.loads ++ [(k, path)], fetches := l2 }, .ok o)
+      | (l2, .error e) =>
+        if wrapped e then ({ s with loads := s.loads ++ [(k, path)], fetches := l2 }, .error (.runtime path))
+        else ({ s with loads := s.loads ++ [(k, path)], fetches := l2 }, .error (.other e))
+
+def accessAllU (w : World) (n : Net) : UState → List Kind → UState × List (Except CErr Obj)
+  | s, [] => (s, [])
+  | s, k :: ks =>
+    let r := accessU w n s k
+    let rest := accessAllU w n r.1 ks
+    (rest.1, r.2 :: rest.2)
+
+/-- a net that answers the same every time -/
+def Net.stationary (n : Net) : Prop := ∀ u i, n.fetch u i = n.fetch u 0
+
+/-- a concrete net: per URL the list of answers (the last one repeats; a URL not listed does not exist), per
+(kind, response) the parse outcome -/
+def Net.ofTable (answers : List (Str × List Fetch)) (parses : List ((Kind × Str) × Except Err Str)) : Net :=
+  { fetch := fun u i =>
+      match answers.lookup u with
+      | some (a :: as) => (a :: as).getD i ((a :: as).getLast?.getD a)
+      | _ => .urlError,
+    parse := fun k r =>
+      match parses.lookup (k, r) with
+      | some x => x
+      | none => .error .other }
+
+/-- the world with no local files at all -/
+def World.empty : World := { «exists» := fun _ => false, listdir := fun _ => none, load := fun _ _ => .error .other }
 
 end ComposeDir
 end PM
